@@ -177,7 +177,8 @@ PROPS = {
                       "histogram's representative (highest equivalent value) of the exact order statistic of rank r (quantile_is_order_statistic; with the sorted list spelled out: "
                       "quantile_is_rth_smallest), quantiles are monotone in the rank (quantile_monotone) and within the precision bound of the order statistic "
                       "(quantile_within_precision); Max() is the representative of the largest and Min() the lowest equivalent value of the smallest recorded value, each within "
-                      "the precision bound (max_is_representative_of_maximum, min_is_lowest_equivalent_of_minimum); merging two histograms of one configuration equals recording the union of their values with nothing dropped (merge_is_union), in "
+                      "the precision bound (max_is_representative_of_maximum, min_is_lowest_equivalent_of_minimum); the numerator of Mean() is the sum of the median equivalent values of the recorded values, "
+                      "each within half a range of its value (mean_numerator_is_sum_of_medians, median_within_half_range); merging two histograms of one configuration equals recording the union of their values with nothing dropped (merge_is_union), in "
                       "either order (merge_commutes, record_order_irrelevant); for ANY two configurations (merge_any_configuration) the receiver ends up as if its own values and the "
                       "argument's values - each replaced by the lowest value of its range in the argument, which is what Merge re-records - had been recorded, and the reported "
                       "dropped count is exactly the number of those the receiver rejects; a windowed histogram's merge after any sequence of records and rotations equals recording what its "
@@ -185,8 +186,8 @@ PROPS = {
                       "chronological queue that drops the oldest generation at every Rotate; Lemmas/Window.lean); Import(Export(h)) = h; counts never negative; a merge step conserves counts (recorded + dropped).",
         "level_note": "Proved through: the counts array is the multiplicity function of the accepted values under the index map (cnts_getD), the index map is monotone (idx_mono), the "
                       "iterator visits the indices in increasing order (find_iter, merge_fold), a value is accepted iff it lies below the capacity of the array (accepts_iff). "
-                      "PARTIAL, decided by the exact oracle of hdr-stat and by model = implementation only: Mean (a float division of an integer sum); the "
-                      "float expression int64(q/100*n + 0.5) that turns q into a rank; BSON/JSON marshalling.",
+                      "Trusted, compared by the exact oracle of hdr-stat and by model = implementation only: the float operations - Mean's final division, the "
+                      "expression int64(q/100*n + 0.5) that turns q into a rank; BSON/JSON marshalling.",
         "assumptions": ["as C12", "float rank expression int64(q/100*n + 0.5) evaluated identically by harness and library"],
     },
     "C20": {
